@@ -6,6 +6,7 @@
 From Coq Require Import List.
 From Basyx Require Import model.LocalFile proofs.LocalFileProofs.
 From Basyx Require model.Crash proofs.CrashProofs.
+From Basyx Require model.CrashConc proofs.LocalFileConcProofs.
 Import ListNotations.
 
 (* Every history of new/add/get/contains/len/iter/discard/local edit/commit/update/clear source/
@@ -189,3 +190,34 @@ Example C14_observer_example :
   d = [(Crash.FDoc 1, Crash.Full 7); (Crash.FTmp 0, Crash.Full 5)] /\
   Crash.r_len d = 1 /\ Crash.r_iter d = Some [(1, 7)] /\ Crash.r_contains d 0 = false.
 Proof. vm_compute. repeat split; reflexivity. Qed.
+
+(* Two (any number of) threads of one process committing concurrently - commit() does not run under the store lock -
+   under every interleaving [ws] of their effects (open of the temporary file, write, close, os.replace;
+   model/CrashConc.v), nothing being refused by the file system, stale temporary files lying around: as long as the
+   writers use pairwise different temporary names, no commit fails (in particular no os.replace finds its temporary
+   file gone), and a commit that performs its os.replace leaves exactly the version it serialised in the document:
+   what was committed last is what is read back. *)
+Theorem C14_concurrent_commits : forall (name : nat -> nat) (vof : nat -> CrashConc.cver) v0 stale ws,
+  (forall a b, name a = name b -> a = b) ->
+  let s := CrashConc.crun name vof (LocalFileConcProofs.all_ok ws) (CrashConc.cinit v0 stale) in
+  (forall u, CrashConc.cph s u <> CrashConc.WFailed) /\
+  (forall w, CrashConc.cph s w = CrashConc.WClosed ->
+             CrashConc.cph (CrashConc.cstep name vof w CrashConc.COk s) w = CrashConc.WDone /\
+             CrashConc.cdoc (CrashConc.cstep name vof w CrashConc.COk s) = Some (CrashConc.CFull (vof w))).
+Proof. exact LocalFileConcProofs.concurrent_commits. Qed.
+
+(* Non-vacuity: two writers with their own names, fully interleaved, writer 1 renames first (document = version 7),
+   writer 0 last (document = version 6); and the premise is needed: with one name per process writer 0's os.replace
+   fails after writer 1 went through between its close and its replace. *)
+Example C14_concurrent_commits_example :
+  (let s := CrashConc.crun (fun w => w) (fun w => 6 + w) (LocalFileConcProofs.all_ok [0; 1; 0; 1; 0; 1; 1; 0])
+                           (CrashConc.cinit 2 (fun _ => None)) in
+   CrashConc.cph s 0 = CrashConc.WDone /\ CrashConc.cph s 1 = CrashConc.WDone /\
+   CrashConc.cdoc s = Some (CrashConc.CFull 6) /\
+   CrashConc.cdoc (CrashConc.crun (fun w => w) (fun w => 6 + w) (LocalFileConcProofs.all_ok [0; 1; 0; 1; 0; 1; 1])
+                                  (CrashConc.cinit 2 (fun _ => None))) = Some (CrashConc.CFull 7)) /\
+  (let s := CrashConc.crun (fun _ => 0) (fun w => 6 + w) (LocalFileConcProofs.all_ok [0; 0; 0; 1; 1; 1; 1; 0])
+                           (CrashConc.cinit 2 (fun _ => None)) in
+   CrashConc.cph s 0 = CrashConc.WFailed /\ CrashConc.cph s 1 = CrashConc.WDone /\
+   CrashConc.cdoc s = Some (CrashConc.CFull 7)).
+Proof. exact (conj LocalFileConcProofs.concurrent_commits_example LocalFileConcProofs.concurrent_commits_shared_name_fails). Qed.
